@@ -211,6 +211,12 @@ def direct(case, obs):
             compare("default; first lookup", v["on1"], want_lookup)
             compare("same object, skip_incomplete switched off after a lookup", v["off"], want_all)
             compare("same object, skip_incomplete switched on again", v["on2"], want_lookup)
+        elif name == "own_filter":
+            compare("caller's own filter dict, default skip_incomplete", v["on"], want_lookup)
+            compare("caller's own filter dict, same object after skip_incomplete was switched off", v["off"], want_all,
+                    sig="lookup-filter-leaks")
+            compare("caller's own filter dict given to a NEW properties object with skip_incomplete=False, after a default "
+                    "lookup used that dict", v["other_object"], want_all, sig="lookup-filter-leaks")
         elif name in expect:
             compare(how[name], v["fresh"], expect[name])
             compare(how[name] + "; one object for all categories, second lookup", v["shared"], expect[name])
